@@ -78,9 +78,23 @@ class Failures:
             return
         ctx = self.ctx
         for sig, msg in self.items:
-            if ctx.known_id(f'{ctx.prop}|{sig}') is None:
+            if not is_known(f'{ctx.prop}|{sig}'):
                 ctx.fail(sig, msg)
         ctx.fail(*self.items[0])
+
+
+_known_patterns = None
+
+
+def is_known(sig):
+    """Same list the runner matches against (read here too, because the runner replays saved cases without it and
+    a case must name the same failing clause in generation and in replay)."""
+    global _known_patterns
+    if _known_patterns is None:
+        _known_patterns = [pat for k in runner.load_known(PROPERTY) if k.get('status') == 'known'
+                           for pat in k.get('signatures', [])]
+    import fnmatch
+    return any(fnmatch.fnmatchcase(sig, pat) for pat in _known_patterns)
 
 
 def gamma_of(th, idx):
@@ -233,6 +247,24 @@ def boundary_feed(th, names, feed, i, T, margin):
     return at(max(0.0, lo - margin)), True
 
 
+def relation(last, present, T, z):
+    """Region tags of a call relative to the most recent earlier call that saw >= 2 chemicals.
+    mem=K: same chemicals present and that call returned two liquids (its coefficients are remembered);
+    mem=1LK / 1LT: same chemicals present, that call returned one liquid, and its answer was itself taken from
+    remembered coefficients (K) or from a higher temperature (T); mem=none otherwise."""
+    if last is None:
+        return 'none', 'na', 'na'
+    sameset = last[0] == present
+    mem = 'K' if (sameset and last[3]) else (f'1L{last[4]}' if (sameset and last[4]) else 'none')
+    dT = 'same' if last[1] == T else ('lower' if T < last[1] else 'higher')
+    if not sameset:
+        dz = 'set'
+    else:
+        m = float(np.abs(last[2] - z).max())
+        dz = 'same' if m <= 1e-12 else ('diff' if m >= 1e-4 else 'near')
+    return mem, dT, dz
+
+
 def draw_common(ch):
     names, org = draw_system(ch)
     th = chem.thermo_of(names)
@@ -317,15 +349,18 @@ def prop_lle_history(ch, ctx):
     tmo.settings.set_thermo(th)
     feed = np.array(feed, float)
     F = feed.sum()
-    # one case in four: move the final feed next to a phase boundary of the code under test (one-liquid side at a
-    # higher temperature Tb) and make the last earlier call that very feed at Tb - the place where an answer
-    # remembered from another temperature is visibly wrong
+    # one case in four: move the final feed next to a phase boundary of the code under test (one-liquid side at
+    # another temperature Tb, mostly a higher one) and make the last earlier call that very feed at Tb - the place
+    # where an answer remembered from another temperature is visibly wrong
     boundary = ch.int('boundary', 0, 3) == 0
     forced = None
     if boundary:
         which = ch.choice('b.which', ['Water', org])
         margin = ch.logfloat('b.margin', -3.0, -1.0)
-        Tb = min(T_HI, T + ch.float('b.dT', 5.0, 60.0))
+        if ch.int('b.colder', 0, 3) == 0:
+            Tb = max(T_LO, T - ch.float('b.dT', 5.0, 60.0))
+        else:
+            Tb = min(T_HI, T + ch.float('b.dT', 5.0, 60.0))
         feed, found = boundary_feed(th, names, feed, names.index(which), Tb, margin)
         ctx.cell('lle.hist:boundary-feed=' + ('found' if found else 'not-bracketed'))
         F = feed.sum()
@@ -367,7 +402,7 @@ def prop_lle_history(ch, ctx):
     first = np.array(steps[0]['feed'], float)
     s = make_stream(th, kind, first, spread, steps[0]['T'], P0)
     c = make_stream(th, kind, first, spread, steps[0]['T'], P0)
-    last = None   # most recent earlier call that saw >= 2 chemicals: (present set, T, z, two liquids)
+    last = None   # most recent earlier call that saw >= 2 chemicals: (present set, T, z, two liquids, stale)
     for i, st in enumerate(steps):
         fi = np.array(st['feed'], float)
         res = []
@@ -385,22 +420,22 @@ def prop_lle_history(ch, ctx):
             ctx.fail('lle.determinism|hist|mismatch', f'two identically treated streams differ at step {i}')
         present = tuple(int(v > 0) for v in fi)
         if sum(present) >= 2:
-            Fi = fi.sum()
-            last = (present, st['T'], fi / Fi, bool(res[0][0].sum() > 0 and res[0][1].sum() > 0))
+            zi = fi / fi.sum()
+            memi, dTi, dzi = relation(last, present, st['T'], zi)
+            # was this earlier answer itself taken from remembered coefficients?  'K': it started from (or, on a
+            # cache hit, reused) coefficients remembered from another call; 'T': reused from a higher temperature
+            stale = ''
+            if memi == 'K':
+                stale = 'K'
+            elif st['cache'] and dzi == 'same' and dTi in ('same', 'lower') and memi != 'none':
+                stale = memi[2:]
+            elif st['cache'] and dzi == 'same' and dTi == 'lower':
+                stale = 'T'
+            last = (present, st['T'], zi, bool(res[0][0].sum() > 0 and res[0][1].sum() > 0), stale)
     # final call
     presentF = tuple(int(v > 0) for v in feed)
     z = feed / F
-    if last is None:
-        mem, dT, dz = 'none', 'na', 'na'
-    else:
-        sameset = last[0] == presentF
-        mem = 'K' if (sameset and last[3]) else 'none'
-        dT = 'same' if last[1] == T else ('lower' if T < last[1] else 'higher')
-        if not sameset:
-            dz = 'set'
-        else:
-            m = float(np.abs(last[2] - z).max())
-            dz = 'same' if m <= 1e-12 else ('diff' if m >= 1e-4 else 'near')
+    mem, dT, dz = relation(last, presentF, T, z)
     if dz == 'near':
         ctx.cell('lle.hist:avoided:composition-within-cache-tolerance')
         ctx.reject('history composition straddles the cache tolerance')
